@@ -386,7 +386,7 @@ func TestC13(t *testing.T) {
 		"plain field reads cannot be counted without instrumenting reflect; accessor-style probe methods stand in for them",
 		"non-event Forget names are chosen so that they are not substrings of a counted call's text (the engine's Forget matches by substring)")
 	defer col.Flush()
-	check(t, 0, budget(1500, 60000), func(rt *rapid.T) {
+	check(t, 0, budget(6000, 80000), func(rt *rapid.T) {
 		g := genC13(rt)
 		rep, v, multi, err := c13Run(g.c)
 		if err != nil {
